@@ -186,7 +186,15 @@ func (e *Engine) rowFunc(v ssa.Value) (*ssa.Function, bool, string) {
 							okAll = false
 							continue
 						}
-						mc, ok := r.Results[0].(*ssa.MakeClosure)
+						rv := r.Results[0]
+						for {
+							ct, ok := rv.(*ssa.ChangeType)
+							if !ok {
+								break
+							}
+							rv = ct.X
+						}
+						mc, ok := rv.(*ssa.MakeClosure)
 						if !ok {
 							okAll = false
 							continue
@@ -432,4 +440,27 @@ func (c *FnCtx) ancestors(v ssa.Value) []Val {
 		}
 	}
 	return out
+}
+
+// tableDomainFacts: the domain of a frozen table is exactly its extracted rows (used where a contract
+// mentions the table global)
+func (c *FnCtx) tableDomainFacts(ti *TableInfo, m string, st map[string]string) {
+	if ti.Open || !ti.Frozen || c.isInitLike() {
+		return
+	}
+	key := "tabledom|" + ti.Name
+	if c.ufs[key] {
+		return
+	}
+	c.ufs[key] = true
+	_, dn, ks, _, _ := c.M.MapHeaps(ti.Global.Type().(*types.Pointer).Elem())
+	d := c.heapIn(st, dn)
+	var eqs []string
+	for _, r := range ti.Rows {
+		lit := c.strLit(r.Key)
+		c.literalSplitFacts(lit, r.Key)
+		eqs = append(eqs, fmt.Sprintf("(= qk %s)", lit))
+	}
+	c.gfact(fmt.Sprintf("(not (= %s 0))", m))
+	c.gfact(fmt.Sprintf("(forall ((qk %s)) (! (= (select (select %s %s) qk) (or %s false)) :pattern ((select (select %s %s) qk))))", ks, d, m, strings.Join(eqs, " "), d, m))
 }
